@@ -166,6 +166,7 @@ PLANS["C03"] = {
         step("miri", "firv-views", 256, shards=16, timeout=3000),
         step("miri", "firv-views", 0, sub="splits", prop_arg="C14", shards=16, timeout=3000),
         step("miri", "firv-views", 0, sub="interleave", prop_arg="C14", shards=2, timeout=3000),
+        step("miri", "firv-misc", 192, sub="small", prop_arg="C06", shards=16, timeout=3000),
         step("asan", "firv-views", 0, sub="quads", prop_arg="C04"),
         step("asan", "firv-views", 30000, sub="buffers", prop_arg="C04"),
         step("asan", "firv-views", 0, sub="splits", prop_arg="C14"),
@@ -178,6 +179,7 @@ PLANS["C03"] = {
         step("miri", "firv-views", 9600, shards=16, timeout=20000),
         step("miri", "firv-views", 0, sub="splits", prop_arg="C14", shards=16, timeout=20000),
         step("miri", "firv-views", 0, sub="interleave", prop_arg="C14", shards=2, timeout=3000),
+        step("miri", "firv-misc", 4800, sub="small", prop_arg="C06", shards=16, timeout=20000),
         step("asan", "firv-views", 0, sub="quads", prop_arg="C04"),
         step("asan", "firv-views", 600000, sub="buffers", prop_arg="C04"),
         step("asan", "firv-views", 0, sub="splits", prop_arg="C14", timeout=10000),
@@ -281,7 +283,7 @@ PLANS["C06"] = {
     "exhaustive": {"quick": False, "thorough": True},
     "quick": [step("rel", "firv-misc", 0, sub="u8", timeout=3000), step("rel", "firv-misc", 400, sub="u16"), step("rel", "firv-misc", 40000, sub="f32"),
               step("rel", "firv-misc", 0, sub="unsupported", shards=1), step("dbg", "firv-misc", 60, sub="u16"), step("asan", "firv-misc", 60, sub="u16"),
-              step("asan", "firv-misc", 4000, sub="f32")],
+              step("asan", "firv-misc", 4000, sub="f32"), step("miri", "firv-misc", 192, sub="small", shards=16, timeout=3000)],
     "thorough": [step("rel", "firv-misc", 0, sub="u8", timeout=7200), step("rel", "firv-misc", 4000, sub="u16", timeout=7200),
                  step("rel", "firv-misc", 0, sub="u16full", timeout=14000), step("rel", "firv-misc", 4000000, sub="f32", timeout=7200),
                  step("rel", "firv-misc", 0, sub="unsupported", shards=1), step("dbg", "firv-misc", 400, sub="u16", timeout=7200),
